@@ -78,7 +78,13 @@ def make_case(family, i, rng, tier):
                      'inner': [[], []], 'z': compress})
     items.append({'kind': 'text', 'text': u'€uro \U0001F600 ' * 6,
                   'cuts': [], 'lenforms': [None], 'inner': [], 'z': compress})
+    for e in prev:
+        e['declines'] = compress and rng.random() < 0.25 and e['kind'] not in (
+            'mid_compressed', 'inflate_error', 'sent_compressed')
     return {'prev': prev, 'items': items, 'compress': compress,
+            'headers': rng.choice([[], [], [['X-Custom', 'one']],
+                                   [['Authorization', 'Bearer t'],
+                                    ['X-Two', '2']]]),
             'mech': next((e['mech'] for e in prev if e['kind'] == 'abandoned'),
                          None),
             # odd microsecond values: data never arrives exactly on a multiple of
@@ -96,7 +102,8 @@ def _prev_conn(e, compress, attempt):
     """-> (conn spec, app rules) for an earlier connection."""
     k = e['kind']
     how = e.get('how', 'eof')
-    hs = S.handshake_steps([EXT] if compress else ())
+    hs = S.handshake_steps([EXT] if compress and not e.get('declines')
+                           else ())
     end = {'op': how, 'after': 1009}
     rules = []
     if k == 'mid_http':
@@ -226,7 +233,8 @@ def build(case):
     n = len(case['prev'])
     base = {'url': 'ws://example.test/clean?slate=1',
             'ws': {'compress': bool(case['compress']),
-                   'protocols': ['p1']},
+                   'protocols': ['p1'],
+                   'headers': case.get('headers') or []},
             'connect': {'poll': 1, 'ping_rate': 2, 'close_timeout': 5},
             'max_polls': 20000,
             # wake-ups are 50 us late, as real ones always are a little: keeps
